@@ -32,7 +32,7 @@ let show_send s = match s with
       (hex_of_str (join [n_of_int 32] scopes)) (show_secret grant)
 let show_result r = match r with
   | RResp true -> "=401" | RResp false -> "=ok"
-  | RErr ENoCred -> "=nocred" | RErr EMissing -> "=missing" | RErr EFetch -> "=fetch" | RErr ERewind -> "=rewind" | RErr ETransport -> "=transport"
+  | RErr ENoCred -> "=nocred" | RErr EMissing -> "=missing" | RErr EFetch -> "=fetch" | RErr ERewind -> "=rewind" | RErr ETransport -> "=transport" | RErr ECred -> "=crederr"
   | RBad -> "=BAD"
 
 let parse_answer t =
@@ -76,6 +76,8 @@ let () =
            let f = next () in
            (h, { c_user = f.[0] = '1'; c_pass = f.[1] = '1'; c_refresh = f.[2] = '1'; c_access = f.[3] = '1' })) in
          let key k = List.map (fun c -> n_of_int (Char.code c)) (List.init (String.length k) (String.get k)) in
+         let nerr = next_int () in
+         let errs = next_n nerr (fun () -> n_of_int (next_int ())) in
          let np = next_int () in
          let ptable = next_n np (fun () ->
            let hdr = str_of_hex (next ()) in
@@ -87,13 +89,13 @@ let () =
          let nreq = next_int () in
          let hist = next_n nreq (fun () ->
            let h = n_of_int (next_int ()) in
-           let body = (match next () with "none" -> BNone | "rewind" -> BRewindable | "once" -> BOnce | _ -> failwith "body") in
+           let body = (match next () with "none" -> BNone | "rewind" -> BRewindable | "once" -> BOnce | "geterr" -> BGetBodyErr | _ -> failwith "body") in
            let hh = next_strs () in
            let gh = next_strs () in
            let nans = next_int () in
            let script = next_n nans (fun () -> parse_answer (next ())) in
            ({ rq_host = h; rq_hints_host = hh; rq_hints_global = gh; rq_body = body }, script)) in
-         let out = run_model fl oauth2 creds ptable hist in
+         let out = run_model fl oauth2 creds errs ptable hist in
          let bad = List.exists (fun (_, r) -> r = RBad) out
                    || List.exists (fun (_, script) -> List.exists (unjudged_header ptable) script) hist in
          if bad then Printf.printf "%s UNJUDGED\n" id
@@ -126,6 +128,8 @@ let () =
            let f = next () in
            (h, { c_user = f.[0] = '1'; c_pass = f.[1] = '1'; c_refresh = f.[2] = '1'; c_access = f.[3] = '1' })) in
          let key k = List.map (fun c -> n_of_int (Char.code c)) (List.init (String.length k) (String.get k)) in
+         let nerr = next_int () in
+         let errs = next_n nerr (fun () -> n_of_int (next_int ())) in
          let np = next_int () in
          let ptable = next_n np (fun () ->
            let hdr = str_of_hex (next ()) in
@@ -156,7 +160,7 @@ let () =
          let nans = next_int () in
          let script = next_n nans (fun () -> parse_answer (next ())) in
          let rq = { rq_host = h; rq_hints_host = hh; rq_hints_global = gh; rq_body = body } in
-         let cf = { cf_flavour = fl; cf_oauth2 = oauth2; cf_creds = lookup_cred creds } in
+         let cf = { cf_flavour = fl; cf_oauth2 = oauth2; cf_creds = lookup_cred creds; cf_cred_err = (fun x -> List.mem x errs) } in
          if List.exists (unjudged_header ptable) script then Printf.printf "%s UNJUDGED\n" id else
          let ((evs, op), r) = do_request_rd clean_scopes (parse_with ptable) cf rq osch otok1 otok2 script in
          if r = RBad then Printf.printf "%s UNJUDGED\n" id else
